@@ -20,7 +20,7 @@ NOT_APPLICABLE = {
     "C20": "per-instruction cycle mix is a pure function of instruction form and placement: " + PURE,
 }
 PENDING = "check not built yet in this session (claimed in DESIGN.md; will move to checks when its machinery is committed)"
-for p in ["C13", "C14", "C15", "C18"]:
+for p in ["C15"]:
     NOT_APPLICABLE[p] = PENDING
 
 CLAIMED = {
@@ -51,5 +51,26 @@ CLAIMED = {
         "design_ref": "DESIGN.md 5 (C06)",
         "level_text": "seeded exploration of nesting histories (depth > 50 reached) of interrupt entries and TRAPA #1-3 with random CCR values, vector top bytes, stacks in on-chip RAM and DRAM: frame bytes, SP, CCR (only I/UI may change), PC from the low 24 bits of the vector entry, and at the matching RTE CCR/PC/SP/ER0-6 and a digest of all memory outside the frame are compared with the state saved at entry.",
         "level_note": "the digest covers vector area, both I/O register blocks, all on-chip RAM and the DRAM windows the guest uses; for non-empty handlers the stack at/below the frame and handler counters are excluded",
+    },
+    "C18": {
+        "engine": "des+net",
+        "technique": "deterministic simulation: seeded partitions of a control-line script into polling batches delivered to the real run loop through a channel-backed socket, reference interpreter + final-image oracle (E1); shuttle-scheduled real worker threads over an in-memory stream with seeded segmentation and EOF (E2)",
+        "design_ref": "DESIGN.md 5 (C18)",
+        "level_text": "seeded exploration of (script x batching x delivery iterations x pause state x host clock) through the real dispatch in Cpu::run, parse_u8, parse_ioport, Socket::pop_messages: a sequence cell must only ever show sent values in order and end at the last one, all pokes/pin levels/pause state must equal the reference interpreter at quiet points, stop must end run() within a bound, and the final memory image must be the initial image plus exactly the poked bytes.",
+        "level_note": "E1 replaces the TCP stream and the two worker threads by channel ends (hook H4); the worker threads themselves are covered by the E2 part",
+    },
+    "C13": {
+        "engine": "des",
+        "technique": "deterministic simulation: simulated host clock/sleep models (slow, coarse, stalled, mixed) around the real run loop, run()-vs-step-loop differential, sync-threshold oracle, timer model in lockstep with the charged states, cross-model and repeat equality",
+        "design_ref": "DESIGN.md 5 (C13)",
+        "level_text": "each scenario (generated guest or example ELF through the real loader) is run by a reference step loop and by the real run() under 4-6 simulated host-clock models and once more: PC/charge sequences, outcome (Ok at the exit address, Err at the failing instruction), final registers, memory image, state count and the whole message sequence must agree; sync messages must appear exactly at multiples of 2,000,000 with the crossing instruction's total; bus and CPU state counts must agree at every boundary; the 8-bit timer model must be explained by exactly the charged deltas.",
+        "level_note": "the host clock and SpinSleeper are the simulated ones behind hook H2; everything else in run() is the shipped code",
+    },
+    "C14": {
+        "engine": "des",
+        "technique": "deterministic simulation: emission-history oracle over the real message path and captured console, inline nothing-else-changes digest at every write call, set_handler decided by interrupts injected at seeded distances behind the call",
+        "design_ref": "DESIGN.md 5 (C14)",
+        "level_text": "seeded exploration of call sequences in generated guests inside the real run(): stdout messages and console bytes must be exactly the buffers, once each, in program order and in order relative to marker ioport messages; registers, CCR and a digest of all memory must be unchanged across every write call; after set_handler(v in 1-63, a) an injected request v must enter exactly a, other vector numbers must leave the table untouched, and any other call number must make run() return an error at that instruction.",
+        "level_note": "scope as stated in DESIGN.md: buffer contents are sampled by the generator, not enumerated",
     },
 }
